@@ -28,7 +28,8 @@ INITS = ["uniform_", "normal_", "xavier_uniform_", "xavier_normal_", "kaiming_un
 
 # one call of every random-consuming entry point, appended to each program that is compared across fresh processes
 TAIL = [{"k": "init_all", "a": 0.2},
-        {"k": "layer", "kind": "linear", "i": 3, "o": 2}, {"k": "layer", "kind": "conv1d", "i": 2, "o": 3},
+        {"k": "layer", "kind": "linear", "i": 3, "o": 2}, {"k": "layer", "kind": "linear", "i": 0, "o": 2},
+        {"k": "layer", "kind": "conv1d", "i": 2, "o": 3},
         {"k": "layer", "kind": "conv2d", "i": 2, "o": 3}, {"k": "layer", "kind": "bn", "i": 1, "o": 3, "affine": True, "momentum": 0.1},
         {"k": "dropout", "p": 0.5, "shape": [3, 4]}, {"k": "split", "n": 11, "test": 0.3, "val": 0.25},
         {"k": "apply_init", "n": 5, "fn": "kaiming_normal_"}, {"k": "apply_init", "n": 4, "fn": "xavier_uniform_"},
@@ -57,6 +58,8 @@ def programs(draw, max_len=7):
             s["fn"] = draw(st.sampled_from(INITS)); s["shape"] = draw(st.sampled_from([[3, 4], [2, 3, 2]]))
         elif k == "layer":
             s["kind"] = draw(st.sampled_from(["linear", "conv1d", "conv2d", "bn", "bn", "bn2d"])); s["i"] = draw(st.integers(1, 3)); s["o"] = draw(st.integers(1, 4))
+            if s["kind"] == "linear" and draw(st.integers(0, 5)) == 0:
+                s["i"] = 0          # a zero-width layer is legal: its parameters must still be fully determined
             if s["kind"].startswith("bn"):
                 s["affine"] = draw(st.booleans()); s["momentum"] = draw(st.sampled_from([0.1, None, 0.5]))
         elif k == "apply_init":
@@ -93,8 +96,10 @@ def check_inprocess(c, rec):
     rec.nontrivial(_nt(c))
     for s in c["prog"]:
         rec.tag(s["k"])
-    d1, f1 = run_program(c["prog"], c["seed"])
-    d2, f2 = run_program(c["prog"], c["seed"])
+    # (freed memory is filled with a different value before each run: uninitialised buffers cannot hide behind
+    #  a recycled block that happens to hold the previous run's values)
+    d1, f1 = run_program(c["prog"], c["seed"], poison=1.5)
+    d2, f2 = run_program(c["prog"], c["seed"], poison=-7.25)
     if d1 != d2:
         raise Violation("same_seed_differs", f"two executions after manual_seed({c['seed']}) differ; program={c['prog']}")
     d3, f3 = run_program(c["prog"], c["seed"], repeat_fixed=c["reps"])
